@@ -64,7 +64,7 @@ func run(c *core.Ctx) int {
 		recs[k] = append(recs[k], cr)
 	}
 	// fixed minimal histories of the known hazard (one per funcref channel and engine): a sensitivity control in every run
-	for _, ch := range []string{"private-table", "global", "table-grow", "shared-table", "imported-global", "lookup", "in-flight", "failed-instantiation", "failed-instantiation-exit", "engine-close", "engine-close-inflight", "shared-compiled", "shared-compiled-twice", "private-memory", "concurrent-importers"} {
+	for _, ch := range []string{"private-table", "global", "table-grow", "shared-table", "imported-global", "lookup", "in-flight", "failed-instantiation", "failed-instantiation-exit", "engine-close", "engine-close-inflight", "shared-compiled", "shared-compiled-twice", "private-memory", "concurrent-importers", "allocator-importer-close", "allocator-importer-fails"} {
 		for _, comp := range []bool{false, true} {
 			cr := caseRec{Seed: 1, Manual: ch, Compiler: comp}
 			lists[0] = append(lists[0], core.J(cr))
@@ -242,6 +242,8 @@ func opName(o *Op) string {
 		return "passref." + o.Channel
 	case "gread":
 		return "gread." + o.Name
+	case "memapi":
+		return "memapi"
 	}
 	return o.Kind
 }
@@ -420,6 +422,15 @@ func (d *decider) decide(cr caseRec, raw json.RawMessage, rs [4]*core.CaseResult
 		if o.Skipped {
 			continue
 		}
+		if len(o.AllocViol) > 0 {
+			v := o.AllocViol[0]
+			c.Count("allocator_frees_while_defining_instance_open", int64(len(o.AllocViol)))
+			c.Count("divergences", 1)
+			c.Violate("allocator:memory-freed-while-defining-instance-live:"+v.How, fmt.Sprintf("run %s: %s", mode, v.Detail),
+				map[string]any{"case": raw, "run": mode, "env": runModes[mi].env, "violations": o.AllocViol, "history": histLines(h, v.Step)})
+			crashed = true // decided: do not also compare this run
+			continue
+		}
 		if len(o.Obs) != len(h.Steps) {
 			c.Inconclusive("obs-length-mismatch-" + mode)
 			continue
@@ -436,6 +447,9 @@ func (d *decider) decide(cr caseRec, raw json.RawMessage, rs [4]*core.CaseResult
 	c.Count(fmt.Sprintf("histories_%d_runtimes", max(h.NRT, 1)), 1)
 	if h.EnsureTerm {
 		c.Count("histories_close_on_context_done", 1)
+	}
+	if h.Alloc {
+		c.Count("histories_custom_memory_allocator", 1)
 	}
 	T := outs[0]
 	if T == nil {
@@ -795,6 +809,9 @@ func replay(c *core.Ctx, path string) int {
 		var o childOut
 		json.Unmarshal(res[0].Out, &o)
 		obs[mi] = o.Obs
+		for _, v := range o.AllocViol {
+			died[mi] += "ALLOCATOR: " + v.Detail + "; "
+		}
 	}
 	os.RemoveAll(filepath.Join(c.Out, fmt.Sprintf("cache-%d", os.Getpid())))
 	for _, l := range histLines(h, -1)[:1+len(h.Mods)] {
